@@ -460,3 +460,29 @@ theorem world_replicated_bytes_once (j : Job) (wf : j.WF) (st0 : RankState) (h0 
   exact sum_partition _ (fun x : WReq UnitId × Bytes => j.owner x.1.path) (fun x : WReq UnitId × Bytes => x.2.length) _ (fun x _ => wf.owner x.1.path)
 
 end Ts.World
+
+/-! ## the one-rank model is the `L = Loc UnitId` instance of the generic entry constructor -/
+namespace Ts.Snapshot
+open Ts.Slab
+
+theorem entryOfLeaf_eq_entryOfUnits (l : Leaf) (xs : List ((WReq UnitId × Ts.Storage.Bytes) × Option Place)) :
+    entryOfLeaf l xs = entryOfUnits l (xs.map (fun e => (e.1, unitLoc e.1.1 e.2))) := by
+  cases l with
+  | blob p =>
+    match xs with
+    | [] => rfl
+    | [e] => rfl
+    | _ :: _ :: _ => rfl
+  | tensor t =>
+    match xs with
+    | [] => rfl
+    | e :: es =>
+      simp only [entryOfLeaf, entryOfUnits, List.map_cons]
+      cases h : e.1.1.path.2 with
+      | none =>
+        cases es with
+        | nil => simp
+        | cons _ _ => simp
+      | some p => simp [List.map_map, Function.comp]
+
+end Ts.Snapshot
